@@ -292,6 +292,13 @@ func (c *IPPoolController) reconcileConditions(ctx context.Context) ([]*v3.IPPoo
 		}
 	}
 
+	// A failed write above means the API server still shows some pool as allocatable that this pass counted as out of
+	// the way (typically a conflict because our cache is stale). Enabling the pools that were chosen on that basis
+	// would leave two overlapping pools allocatable, so leave them for the retry.
+	if len(errs) > 0 {
+		return pools, utilerrors.NewAggregate(errs)
+	}
+
 	// Make sure non-overlapping pools are enabled by removing the disabled condition if it exists.
 	for _, pool := range active {
 		cond := metav1.Condition{
